@@ -278,7 +278,7 @@ pub fn strace_works() -> Result<(), String> {
 /// all crash-leg cases of one tier, as jobs; job j handles one (op, size, previous) combination
 pub fn combos(tier: Tier) -> Vec<(String, usize, bool)> {
     let mut v = Vec::new();
-    let ops: &[(&str, &[usize])] = if tier == Tier::Quick { &[("put", &[20_000]), ("put-framed", &[60_000]), ("copy", &[20_000])] } else { &[("put", &[1, 8192, 20_000, 300_000]), ("put-framed", &[100_000]), ("copy", &[1, 20_000, 300_000]), ("complete", &[5000])] };
+    let ops: &[(&str, &[usize])] = if tier == Tier::Quick { &[("put", &[20_000]), ("put-framed", &[60_000]), ("copy", &[20_000]), ("complete", &[5000])] } else { &[("put", &[1, 8192, 20_000, 300_000]), ("put-framed", &[100_000]), ("copy", &[1, 20_000, 300_000]), ("complete", &[5000])] };
     for (op, sizes) in ops {
         for &s in *sizes {
             for prev in [false, true] {
